@@ -80,6 +80,8 @@ def to_str(P, x, conv=-1, spec=None):
         if h:
             return h(P, x)
         raise _unsup(f"str() of {cname}")
+    if isinstance(x, SAny):
+        return SStr(P.fresh_z(f"str_of_any_{x.origin}".replace(".", "_").replace("[", "_").replace("]", "_").replace("(", "_").replace(")", "_"), StrS))
     if isinstance(x, Opaque) and x.z is not None and x.z.sort() == StrS:
         return SStr(x.z)
     if isinstance(x, Opaque):
@@ -169,6 +171,7 @@ def str_method(P, s, name, args, kwargs):
     if name == "splitlines":
         n = P.fresh_int("nlines")
         P.assume(n.z >= 0)
+        P.assume((n.z == 0) == (z3.Length(z) == 0))   # "".splitlines() == [] and only then
         f = P.fresh_fn("line", IntS, StrS)
         return SSeq(n, lambda i: SStr(f(zint(i))), tag="splitlines")
     if name == "join":
@@ -291,6 +294,8 @@ def binop(P, op, a, b):
             P.assume(z3.Length(r.z) == z3.If(zint(b) > 0, zint(b), 0))
             return r
         raise _unsup("str * int")
+    if isinstance(b, (str, SStr)) and isinstance(op, ast.Mult) and num(a):
+        return binop(P, op, b, a)
     if isinstance(op, ast.Mult) and isinstance(a, (list, tuple)) and isinstance(b, SInt):
         if len(a) == 1:
             x = a[0]
@@ -341,6 +346,8 @@ def contains(P, container, item):
     """item in container -> bool | z3 Bool"""
     if isinstance(container, SUnion):
         container = P.choose(container)
+    if isinstance(container, MList):
+        container = container.seq
     if isinstance(container, (list, tuple, set, frozenset)):
         cs = [P.eq(item, x) for x in container]
         if all(isinstance(c, bool) for c in cs):
@@ -353,7 +360,12 @@ def contains(P, container, item):
         return z3.Or(*[zbool(c) for c in cs])
     if isinstance(container, SMap):
         return map_has(P, container, item)
+    if isinstance(container, SAny):
+        # membership test on a value of unknown type: a container by assumption (listed in the contract), either answer
+        return z3.Bool(P._fresh_name(f"any_{container.origin}_contains"))
     if isinstance(container, (str, SStr)):
+        if isinstance(item, SAny):
+            raise _pyexc(P, "TypeError", "'in <string>' requires string as left operand")
         if isinstance(item, (str, SStr)):
             return z3.Contains(zstr(container), zstr(item))
         raise _pyexc(P, "TypeError", "'in <string>' requires string as left operand")
@@ -464,6 +476,8 @@ def getitem(P, c, k):
     from .interp import PyExc
     if isinstance(c, SUnion):
         c = P.choose(c)
+    if isinstance(c, MList):
+        c = c.seq
     if isinstance(k, SUnion):
         k = P.choose(k)
     if isinstance(c, (list, tuple, SSeq)):
@@ -551,6 +565,8 @@ def getitem(P, c, k):
         raise _pyexc(P, "TypeError", f"'{cname}' object is not subscriptable")
     if c is None:
         raise _pyexc(P, "TypeError", "'NoneType' object is not subscriptable")
+    if isinstance(c, SAny):
+        return any_getitem(P, c, k)
     if isinstance(c, ClassRef):
         return c  # typing generics: list[int] etc. (annotations only)
     raise _unsup(f"getitem on {type(c).__name__}")
@@ -678,6 +694,16 @@ def call_method(P, recv, name, args, kwargs):
                 recv.parts.append(s)
             return None
         raise _unsup(f"SCat.{name}")
+    if isinstance(recv, MList):
+        if name == "append":
+            recv.seq = P.seq_concat(recv.seq, [args[0]])
+            return None
+        if name == "extend":
+            recv.seq = P.seq_concat(recv.seq, P.to_seq(args[0]))
+            return None
+        if name in ("index", "count", "copy"):
+            return call_method(P, P.to_seq(recv), name, args, kwargs)
+        raise _unsup(f"MList.{name}")
     if isinstance(recv, (str, SStr)):
         return str_method(P, recv, name, args, kwargs)
     if isinstance(recv, list):
@@ -887,7 +913,82 @@ def call_method(P, recv, name, args, kwargs):
     raise _unsup(f"method {type(recv).__name__}.{name}")
 
 
+ANY_BOOL_ATTRS = {"is_function", "is_attribute", "is_class", "is_module", "is_alias", "is_tuple", "is_iterator", "is_generator",
+                  "is_classvar", "is_property"}
+
+
+class AnyPolicy:
+    """What reads on a value of unknown type may raise, and how the kind of the result is refined.  Contracts may install a
+    subclass as P.ghost['any_policy'] (stated in their trusted base)."""
+
+    def attr_excs(self, o, name):
+        """Exception classes an attribute read may raise; () = the attribute always exists and reads never raise."""
+        return ("AttributeError",)
+
+    def item_excs(self, P, o, key):
+        return ("KeyError", "TypeError") if isinstance(key, (str, SStr)) else ("IndexError", "KeyError", "TypeError")
+
+    def child_kind(self, o, op, name):
+        return None
+
+
+def _any_policy(P):
+    return P.ghost.get("any_policy") or AnyPolicy()
+
+
+def any_getattr(P, o, name):
+    """Attribute read on a value of unknown type: one of the policy's exceptions, or a value of unknown type (memoised per object/name)."""
+    key = ("attr", name)
+    if key in o.memo:
+        r = o.memo[key]
+        if isinstance(r, tuple) and r and r[0] is NOATTR:
+            raise _pyexc(P, r[1], f"reading attribute '{name}'")
+        return r
+    pol = _any_policy(P)
+    excs = pol.attr_excs(o, name)
+    if excs:
+        which = P.fresh_int(f"any_{o.origin}_read_{name}")
+        P.assume(z3.And(which.z >= 0, which.z <= len(excs)))
+        for i, exc in enumerate(excs):
+            if P.branch(which.z == i):
+                o.memo[key] = (NOATTR, exc)
+                raise _pyexc(P, exc, f"reading attribute '{name}'")
+    if name in ANY_BOOL_ATTRS:
+        r = SBool(z3.Bool(P._fresh_name(f"any_{o.origin}_{name}")))
+    else:
+        r = SAny(f"{o.origin}.{name}", kind=pol.child_kind(o, "attr", name))
+    o.memo[key] = r
+    return r
+
+
+def any_getitem(P, o, k):
+    """Subscript of a value of unknown type: one of the policy's exceptions, or a value of unknown type."""
+    pol = _any_policy(P)
+    excs = pol.item_excs(P, o, k)
+    which = P.fresh_int(f"any_{o.origin}_subscript")
+    P.assume(z3.And(which.z >= 0, which.z <= len(excs)))
+    for i, exc in enumerate(excs):
+        cond = which.z == i
+        if isinstance(exc, tuple):   # (exception, condition under which it can be raised)
+            exc, extra = exc
+            cond = z3.And(cond, extra)
+        if P.branch(cond):
+            raise _pyexc(P, exc, "subscript of a value of unknown type")
+    return SAny(f"{o.origin}[]", kind=pol.child_kind(o, "item", k))
+
+
+def any_call(P, o, args, kwargs):
+    if P.branch(z3.Bool(P._fresh_name(f"any_{o.origin}_call_raises"))):
+        from .interp import PyExc
+        raise PyExc(SObj(SCls(["Exception", "TypeError", "ValueError", "KeyError", "AttributeError", "IndexError"], P.fresh_int("any_call_exc").z), {"args": ()}))
+    return SAny(f"{o.origin}()")
+
+
 def value_getattr(P, o, name):
+    if isinstance(o, MList):
+        if not hasattr(list, name):
+            raise _pyexc(P, "AttributeError", f"'list' object has no attribute '{name}'")
+        return BoundMethod(o, lambda P_, s, a, k, _n=name: call_method(P_, s, _n, a, k))
     if isinstance(o, SymSet) or isinstance(o, (set, frozenset, dict, list, tuple, str, SStr, SSeq, SMap)):
         pytype = (str if isinstance(o, (str, SStr)) else dict if isinstance(o, (dict, SMap)) else set if isinstance(o, (set, SymSet)) else
                   frozenset if isinstance(o, frozenset) else tuple if isinstance(o, tuple) or (isinstance(o, SSeq) and o.kind == "tuple") else list)
@@ -909,6 +1010,8 @@ def _b_len(P, a, k):
     (x,) = a
     if isinstance(x, SUnion):
         x = P.choose(x)
+    if isinstance(x, MList):
+        x = x.seq
     if isinstance(x, (list, tuple, dict, set, frozenset, str)):
         return len(x)
     if isinstance(x, SSeq):
@@ -962,7 +1065,7 @@ def _isinst1(P, x, cname):
         return cname == "int"
     if isinstance(x, (str, SStr)):
         return cname == "str"
-    if isinstance(x, list) or (isinstance(x, SSeq) and x.kind == "list"):
+    if isinstance(x, (list, MList)) or (isinstance(x, SSeq) and x.kind == "list"):
         return cname in ("list", "Sequence", "Iterable")
     if isinstance(x, tuple) or (isinstance(x, SSeq) and x.kind == "tuple"):
         return cname in ("tuple", "Sequence", "Iterable")
@@ -984,6 +1087,11 @@ def _isinst1(P, x, cname):
         if len(cs) == len(sc.cands):
             return True
         return mk_bool(z3.Or(*cs))
+    if isinstance(x, SAny):
+        key = ("isinstance", cname)
+        if key not in x.memo:
+            x.memo[key] = mk_bool(z3.Bool(P._fresh_name(f"any_{x.origin}_is_{cname}")))
+        return x.memo[key]
     if isinstance(x, Opaque):
         h = P.opaque_hooks.get(f"isinstance:{x.tag}")
         if h:
@@ -1412,6 +1520,11 @@ def external(P, full):
         return Builtin(full, lambda P_, a, k: SStr(ufn("cleandoc", StrS, StrS)(zstr(a[0]))) if is_sym(a[0]) else __import__("inspect").cleandoc(a[0]))
     if full == "textwrap.dedent":
         return Builtin(full, lambda P_, a, k: SStr(ufn("dedent", StrS, StrS)(zstr(a[0]))) if is_sym(a[0]) else __import__("textwrap").dedent(a[0]))
+    if full.startswith("re.") and full.count(".") == 1:
+        from . import regex
+        r = regex.external(P, full)
+        if r is not None:
+            return r
     if full in ("ast", "re", "sys", "os", "json", "subprocess", "itertools", "contextlib", "inspect", "warnings", "shutil", "tempfile",
                 "os.path", "pathlib", "unicodedata", "importlib", "functools", "collections", "typing"):
         return ModuleRef(full)
